@@ -797,6 +797,10 @@ fn check_plans(ctx: &mut Ctx, case: &Case, links: &[Link], sims: &[SpeedLimitTra
         if !dests.contains(&p.last().unwrap().link_idx.idx()) {
             v(ctx, "route ends on a destination segment", format!("train {t}: ends on link {} (destinations {:?})", p.last().unwrap().link_idx.idx(), dests));
         }
+        // an arrival at +inf is a train that never arrives: silently dropped, whatever the return value says
+        if let Some(x) = p.iter().find(|x| !x.time.value.is_finite()) {
+            v(ctx, "arrival times finite (no train silently dropped)", format!("train {t}: arrival on link {} at {}", x.link_idx.idx(), x.time.value));
+        }
         for w in p.windows(2) {
             let l = &links[w[0].link_idx.idx()];
             if !(l.idx_next == w[1].link_idx || l.idx_next_alt == w[1].link_idx) {
